@@ -34,6 +34,10 @@ pub fn scene(k: usize) -> Scene {
             let mut p = vec![rec("cartesianX", F32), rec("cartesianY", F64), rec("cartesianZ", Ty::Scaled { min: -(1 << 18), max: (1 << 18) - 1, scale: 0.001, offset: 0.0 })];
             p.push(rec("isIntensityInvalid", Ty::Int { min: 0, max: 1 }));
             p.push(rec("intensity", Ty::Int { min: 9, max: 9 }));
+            p.push(rec("timeStamp", Ty::F64 { min: None, max: Some(86400.0) }));
+            p.push(rec("colorRed", Ty::F32 { min: Some(0.0), max: None }));
+            p.push(rec("colorGreen", Ty::F32 { min: None, max: Some(1.0) }));
+            p.push(rec("colorBlue", Ty::F32 { min: Some(0.0), max: Some(1.0) }));
             s.clouds.push(cloud("c0", p, 5, 2));
             s
         }
